@@ -12,6 +12,7 @@ import AcnProofs.Lemmas.NetworkCurrent
 import AcnProofs.Lemmas.NetworkAlign
 import AcnProofs.Lemmas.NetworkQuery
 import AcnProofs.Lemmas.NetworkFeas
+import AcnProofs.Lemmas.NetworkUse
 import Mathlib.Tactic
 
 set_option linter.unusedSectionVars false
@@ -463,5 +464,97 @@ example : ∃ e, (FullNet.init.run [FOp.register "A" (1 : ℚ) 0 208, .register 
       = .error e := ⟨.valueError, by decide +kernel⟩
 
 end feas
+
+/-! ## 6. The network in use: reads and save/resume between the edits -/
+section use
+variable {K : Type} [Field K] [LinearOrder K] [IsStrictOrderedRing K]
+
+/-- `ChargingNetwork.from_json(net.to_json())` is the network that was saved: same stations in the
+    same order, same matrix, limits, names, phase angles, voltages and tolerances (the station order
+    travels ONLY as the key order of the `_EVSEs` dictionary). -/
+theorem resume_eq (ids : String → Nat) (u : UNet K) : u.resume ids = u := UNet.resume_eq' ids u
+
+example : (((UNet.init (1 : ℚ) 0).run [.edit (.register "s9" 1 0 208), .edit (.register "A" 0 1 240),
+    .edit (.add [("A", 2)] 5 none)]).toDict (fun st => st.length)).evses = [("s9", 2), ("A", 1)] := by
+  decide +kernel
+
+/-- **Uses change nothing.**  For EVERY history that interleaves the edits with any number of
+    feasibility questions (network / Interface / algorithm side, any mode and tolerances),
+    aggregate-current queries, views, simulations and save/resume round trips: the object at the
+    end is the one the edits alone produce, and the tolerances are the constructor's. -/
+theorem history_with_uses (u : UNet K) (h : List (HOp K)) :
+    (u.run h).full = u.full.run (edits h) ∧ (u.run h).vt = u.vt ∧ (u.run h).rt = u.rt :=
+  UNet.run_full u h
+
+/-- … hence the alignment theorem holds for histories with uses: after ANY such history on a fresh
+    network the three containers are the images of the specification's constraint list run over the
+    edits alone, and the edits raised exactly where the specification refuses. -/
+theorem history_with_uses_aligned (vt rt : K) (h : List (HOp K)) :
+    editErrs ((UNet.init vt rt).answers h) = (Spec.init : Spec K).trace ((edits h).map FOp.toOp) ∧
+      Refines ((UNet.init vt rt).run h).full.base ((Spec.init : Spec K).run ((edits h).map FOp.toOp)) := by
+  have h1 := UNet.editErrs_answers (UNet.init vt rt) h
+  have h2 := (UNet.run_full (UNet.init vt rt) h).1
+  have ha := align_refines (K := K) ((edits h).map FOp.toOp)
+  refine ⟨?_, ?_⟩
+  · rw [h1]
+    show (FullNet.init : FullNet K).trace (edits h) = _
+    rw [FullNet.trace_base]; exact ha.1
+  · rw [h2]
+    show Refines ((FullNet.init : FullNet K).run (edits h)).base _
+    rw [FullNet.run_base]; exact ha.2
+
+def exUse : List (HOp ℚ) :=
+  [.edit (.register "C" 1 0 208), .edit (.register "A" 0 1 208),
+   .edit (.add [("A", 2), ("C", 1)] 7 none), .use (.feasible [[1], [2]] false none none),
+   .use (.resume (fun _ => 0)), .edit (.add [("Z", 1)] 3 (some "bad")), .use .view,
+   .use (.simulate [[[1], [1]]]), .edit (.update "_const_0" [("C", 3)] 9 (some "x")),
+   .use (.query [[1], [2]] 1 none none true)]
+
+example : edits exUse = [.register "C" 1 0 208, .register "A" 0 1 208,
+    .add [("A", 2), ("C", 1)] 7 none, .add [("Z", 1)] 3 (some "bad"),
+    .update "_const_0" [("C", 3)] 9 (some "x")] := rfl
+
+example : ((UNet.init (0 : ℚ) 0).run exUse).full.base.matrix = some [[3, 0]] ∧
+    ((UNet.init (0 : ℚ) 0).run exUse).full.base.magnitudes = [9] ∧
+    ((UNet.init (0 : ℚ) 0).run exUse).full.base.index = ["x"] := by
+  refine ⟨?_, ?_, ?_⟩ <;> decide +kernel
+
+/-- **The model's `is_feasible` is C06's.**  On the network reached by any history of edits without
+    re-registration, for a schedule with one row per station, the answer of
+    `FullNet.isFeasible` (the entry point the correspondence of C12 exercises between the edits,
+    with numpy's shape failures) is the answer of `Feas.Net.isFeasible` on the projected object —
+    the function C06's theorems are about. -/
+theorem use_feasible_eq_feas (ops : List (FOp K))
+    (hfr : FullNet.FreshRun (FullNet.init : FullNet K) ops) (vt rt : K) (S : List (List K))
+    (linear : Bool) (vt? rt? : Option K) (b : Bool) :
+    let f := (FullNet.init : FullNet K).run ops
+    S.length = f.base.stations.length →
+    (f.isFeasible vt rt S linear vt? rt? = .ok b ↔
+      (f.toFeas vt rt).isFeasible S linear vt? rt? = .ok b) := by
+  intro f hS
+  have hv : VecInv f := run_vecInv vecInv_init ops hfr
+  unfold FullNet.isFeasible Feas.Net.isFeasible
+  simp only [FullNet.toFeas]
+  by_cases he : f.base.magnitudes.isEmpty = true
+  · simp [he]
+  · simp only [he, Bool.false_eq_true, if_false]
+    cases hm : f.base.matrix with
+    | none => simp
+    | some rows =>
+      simp only [Option.map_some]
+      cases linear with
+      | true => simp [hS]
+      | false =>
+        have hw : FullNet.broadcastWidth S.length f.c.length = some f.base.stations.length := by
+          unfold FullNet.broadcastWidth
+          rw [if_pos (by rw [hv.hc]; exact hS), hS]
+        simp only [hw, Bool.false_eq_true, if_false, ne_eq, not_true_eq_false]
+        rw [bcast_of_length hv.hc, bcast_of_length hv.hs, bcast_of_length hS]
+        simp only [Except.ok.injEq]
+
+example : FullNet.isFeasible ((FullNet.init : FullNet ℚ).run exFull) 0 0 [[1], [1], [9]] true none none
+    = .ok false := by decide +kernel
+
+end use
 
 end Acn.C12
